@@ -27,7 +27,7 @@ def gen_float(rng):
     if c < 0.8: return "%d.%0*d" % (rng.randint(0, 10**6), rng.randint(1, 12), rng.randint(0, 10**6))
     return "%d.%d" % (rng.randint(0, 10**15), rng.randint(0, 9))
 
-SCH = ['a', 'b', ' ', '"', '\\', '\n', '\t', 'é', 'λ', '(', ')', ';', "'", '%', '1', '😀']
+SCH = ['a', 'b', ' ', '"', '\\', '\n', '\t', '\r', '\r\n', '\n\r', 'é', 'λ', '(', ')', ';', "'", '%', '1', '😀']
 def gen_string_text(rng):
     n = rng.choice([0, 1, 2, 3, 5, 9])
     out = []
@@ -77,6 +77,7 @@ def layout(rng, force=False):
     if c < 0.6: return " "
     if c < 0.7: return "  \t "
     if c < 0.8: return "\n"
+    if c < 0.85: return rng.choice(["\r\n", " \r\n  ", "\r", " ; comment\r\n"])
     if c < 0.9: return " ; a comment ( \" \n "
     return "\n\n   "
 
@@ -92,7 +93,7 @@ def generate(tier, seed):
     texts += ["9223372036854775807", "-9223372036854775808", "0.1", "0.30000000000000004", "179769313486231570000000000000.0",
               "0.000001", "4.9406564584124654", '"\\\\"', '"\\""', '"a\\nb"', '""', "(a . b)", "(a b . c)", "((a . b) . (c . d))",
               '(12 "12")', '("12" 12)', '(-7 "-7" -7.0 "-7.0")', '(a "a" :a ":a")', '(nil "nil" t "t" ("nil"))', '(1.5 "1.5" 1.5)',
-              '("" nil ())', '(0 "0" 0.0 -0.0 "-0.0")', '((12) ("12") (12 . "12") ("12" . 12))',
+              '("" nil ())', '"a\r\nb"', '"\r"', '"\r\n"', '"\n\r"', '("x\r\ny" . "\r\n\r\n")', '(a\r\nb "c\r\n" ; cr lf\r\n d)', '(0 "0" 0.0 -0.0 "-0.0")', '((12) ("12") (12 . "12") ("12" . 12))',
               "'(quote a)", "#'car", "`(a ,b ,@c)", "(1 . (2 . (3 . nil)))", "(a . (b))"]
     for k, t in enumerate(texts):
         if k % 10 == 0: lines.append("NEW")
